@@ -32,7 +32,13 @@ def c08_engine(tier):
         J(GRAPH, "VerifE01Check", model="cycle_mutual", maxcands=16, invalid=0, subjects="min", prior=1, priorreq=2, req=8, breadth=1, **e),
         J(GRAPH, "VerifE01Check", model="cycle_mutual", maxcands=16, invalid=0, subjects="min", prior=1, priorreq=2, req=8, **e),
     ]
+    # the weighted-graph engine (internal/check.Resolver) with its own query cache: two relations share the subtracted
+    # relation (`viewer`, `editor`: [user] but not blocked); requests 5 / 3 are document:1#viewer@user:1 / #editor@user:1
+    V2 = "pkg/server/commands/v2breaking"
+    for pr, r in [(5, 3), (3, 5)]:
+        jobs.append(J(V2, "VerifE03WeightedCheck", model="shared_excl", maxcands=12, invalid=0, subjects="min", prior=1, priorreq=pr, req=r, **e))
     if not q:
+        jobs.append(J(V2, "VerifE03WeightedCheck", model="shared_excl", maxcands=12, invalid=0, subjects="min", prior=1, job_timeout_s=3000, **e))
         for m in ["ttu", "intersection", "condition", "inter_excl", "cycle_inter"]:
             jobs.append(J(GRAPH, "VerifE01Check", model=m, maxcands=10, invalid=0, subjects="min", prior=1, **e))
         for pr, r in [(8, 2), (5, 8), (2, 11), (8, 5)]:
@@ -87,7 +93,7 @@ def c11(tier, seed):
 SPEC = {
     "C08": {
         "jobs": c08,
-        "level_text": "bounded symbolic execution of the real CachedCheckResolver.ResolveCheck as one inductive step: the cache (a harness implementation of storage.InMemoryCache) holds, under the request's real cache key, nothing or an entry with symbolic LastModified and symbolic stored response, plus optionally a neighbour request's entry with the opposite answer; the delegate is a harness CheckResolver answering with a symbolic error / cycle-flagged arbitrary response / the true answer; the request has a symbolic LastCacheInvalidationTime, one of 4 shapes (contextual tuple, context) and any consistency preference. Assumed invariant: an entry that is valid for the request stores the delegate's cycle-free answer. Shown: the returned decision is the delegate's decision for the key (from the valid entry without consulting the delegate, else from the delegate, consulted exactly once with the unchanged request); entries not newer than LastCacheInvalidationTime are never served; errors and CycleDetected responses are never stored; an answer is stored exactly once under the request's key, stamped with the time of the call, with the configured TTL, as a copy; the returned response is never the cached object (mutating it leaves the cache unchanged); neighbours are untouched; the invariant holds afterwards for every later invalidation time. Cache keys: CheckCacheKey over symbolic strings/invariants is equal iff all five fields are equal; a 23-entry vocabulary of concrete requests (differing in store, model, tuple parts, contextual tuples incl. conditions, context keys/values/types, field-boundary shifts; plus re-orderings and nil-vs-empty context) gets equal keys (real InvariantCacheKey with the real XXH64) exactly when the requests are the same; symbolic equal inputs give equal keys; (E) the whole default engine (graph.LocalChecker with a solver-chosen strategy per plan key) behind the real CachedCheckResolver over a symbolic store: the cache is warmed by an arbitrary earlier request or by the same request, every dispatched sub-problem goes through the cache, and the answer must still equal the three-valued least-fixpoint reference for every store content (a cached sub-answer that depended on the visited path of the request that computed it would show up here)",
+        "level_text": "bounded symbolic execution of the real CachedCheckResolver.ResolveCheck as one inductive step: the cache (a harness implementation of storage.InMemoryCache) holds, under the request's real cache key, nothing or an entry with symbolic LastModified and symbolic stored response, plus optionally a neighbour request's entry with the opposite answer; the delegate is a harness CheckResolver answering with a symbolic error / cycle-flagged arbitrary response / the true answer; the request has a symbolic LastCacheInvalidationTime, one of 4 shapes (contextual tuple, context) and any consistency preference. Assumed invariant: an entry that is valid for the request stores the delegate's cycle-free answer. Shown: the returned decision is the delegate's decision for the key (from the valid entry without consulting the delegate, else from the delegate, consulted exactly once with the unchanged request); entries not newer than LastCacheInvalidationTime are never served; errors and CycleDetected responses are never stored; an answer is stored exactly once under the request's key, stamped with the time of the call, with the configured TTL, as a copy; the returned response is never the cached object (mutating it leaves the cache unchanged); neighbours are untouched; the invariant holds afterwards for every later invalidation time. Cache keys: CheckCacheKey over symbolic strings/invariants is equal iff all five fields are equal; a 23-entry vocabulary of concrete requests (differing in store, model, tuple parts, contextual tuples incl. conditions, context keys/values/types, field-boundary shifts; plus re-orderings and nil-vs-empty context) gets equal keys (real InvariantCacheKey with the real XXH64) exactly when the requests are the same; symbolic equal inputs give equal keys; (E) the whole default engine (graph.LocalChecker with a solver-chosen strategy per plan key) behind the real CachedCheckResolver over a symbolic store: the cache is warmed by an arbitrary earlier request or by the same request, every dispatched sub-problem goes through the cache, and the answer must still equal the three-valued least-fixpoint reference for every store content (a cached sub-answer that depended on the visited path of the request that computed it would show up here); the same for the weighted-graph engine (internal/check.Resolver) with its own query cache on a model whose relations share a subtracted relation",
         "level_note": "bounds: instants in 0..6 (quick) / 0..12, 4 request shapes x 3 consistency preferences x 4 cache contents; key fields <= 2/3 arbitrary bytes; digest: concrete XXH64 for the process seed on the vocabulary, uninterpreted function on symbolic inputs (collision freedom is excluded by the property); jitter 0 (JitteredTTL is covered by C11); sequences of requests through LocalChecker (E08: path-dependent sub-results, hypothesis H8 about internal/check edge caching) are NOT covered by this kernel; trusted: go/ssa, engine semantics, abstract clock, z3; E jobs: models userset / exclusion (10 candidates) and a mutual userset cycle with its whole 16-tuple universe (request pair pinned, operands one at a time and in parallel), 2 objects per type; thorough: 5 more models and 4 more request pairs; entries never expire within a run",
         "assumptions": [
             "the delegate's cycle-free answer for a key is a function of the key while the store is unchanged (its correctness is C01)",
